@@ -749,10 +749,20 @@ func (c *Ctx) mapStore(h *Heap, m string, mt *types.Map, k, v Val) *Heap {
 	ds := "(Array Int (Array " + ks + " Bool))"
 	d := c.heapGet(h, dm, ds)
 	dmap := c.sel(d, m)
+	if len(k[0]) > 64 && c.noBind == 0 {
+		k = Val{c.bind("mkey", ks, k[0])}
+	}
 	present := c.sel(dmap, k[0])
+	if len(present) > 64 && c.noBind == 0 {
+		present = c.bind("mok", "Bool", present)
+	}
 	ls := "(Array Int Int)"
 	l := c.heapGet(h, lm, ls)
-	h = c.heapUpd(h, lm, ls, sto(l, m, ite(present, c.sel(l, m), add(c.sel(l, m), "1"))))
+	oldLen := c.sel(l, m)
+	if len(oldLen) > 64 && c.noBind == 0 {
+		oldLen = c.bind("mlen", "Int", oldLen)
+	}
+	h = c.heapUpd(h, lm, ls, sto(l, m, ite(present, oldLen, add(oldLen, "1"))))
 	h = c.heapUpd(h, dm, ds, sto(d, m, sto(dmap, k[0], sTrue)))
 	for i := range esh {
 		vs := "(Array Int (Array " + ks + " " + esh[i].Sort + "))"
